@@ -497,6 +497,100 @@ pub fn table() -> Vec<Spec> {
         s.fns = vec![ofn("f", "f", "N -> N -> N -> rres N", Ty::Res(Box::new(Ty::Int(64))))];
         t.push(s);
     }
+
+    {
+        // ---- third round: the remaining provided methods of GuestMemory and the result decisions of
+        // Bytes<GuestAddress> for T: GuestMemory.  The collection is seen through find_region / to_region_addr /
+        // try_access (opaque); a region is an abstract object RG.
+        let gmk = |name: &'static str, f: &'static str| base("Guest", "GuestMemory", gfile, name, f, Loc::Trait("GuestMemory", f));
+        let resn = || Ty::Res(Box::new(Ty::Int(64)));
+        // check_range: try_access(len, base, |_, count, _, _| Ok(count)) (the closure is translated), then `== len`
+        let mut s = gmk("gm_check_range", "check_range");
+        s.canon_params = vec!["base", "len"];
+        s.fns = vec![ofn("try_access", "try_access", "N -> N -> (N -> N -> N -> rres N) -> rres N", resn())];
+        s.closure_params = vec![("total", Ty::Int(64)), ("count", Ty::Int(64)), ("start", Ty::Addr), ("region", Ty::Unit)];
+        t.push(s);
+        // to_region_addr: find_region(addr).map(|r| (r, r.to_region_addr(addr).unwrap())); start / len are those of r
+        let mut s = gmk("gm_to_region_addr", "to_region_addr");
+        s.canon_params = vec!["addr"];
+        s.type_params = vec!["RG"];
+        s.extra = vec![ext("self . find_region (addr)", "found", "option RG", opt(Ty::Unknown)),
+                       ex("r . start_addr ()", "start", Ty::Addr), ex("r . len ()", "len", Ty::Int(64))];
+        s.recv_groups = vec![("r", "GuestRegion")];
+        s.closure_params = vec![("r", Ty::Unknown)];
+        t.push(s);
+        // address_in_range / check_address
+        for (name, f) in [("gm_address_in_range", "address_in_range"), ("gm_check_address", "check_address")] {
+            let mut s = gmk(name, f);
+            s.canon_params = vec!["addr"];
+            s.type_params = vec!["RG"];
+            s.extra = vec![ext("self . find_region (addr)", "found", "option RG", opt(Ty::Unknown))];
+            t.push(s);
+        }
+        // get_host_address / get_slice: to_region_addr(addr).ok_or(InvalidGuestAddress(addr)).and_then(|(r, addr)| r.<f>(addr[, count]))
+        for (name, f, cty) in [("gm_get_host_address", "get_host_address", "RG -> N -> rres R"), ("gm_get_slice", "get_slice", "RG -> N -> N -> rres R")] {
+            let mut s = gmk(name, f);
+            s.canon_params = vec!["addr", "count"];
+            s.type_params = vec!["RG", "R"];
+            s.extra = vec![ext("self . to_region_addr (addr)", "tra", "option (RG * N)", opt(Ty::Tup(vec![Ty::Unknown, Ty::Addr])))];
+            s.fns = vec![ofn(f, "region_call", cty, Ty::Res(Box::new(Ty::Unknown)))];
+            s.recv_arg = vec![f];
+            s.closure_params = vec![("r", Ty::Unknown), ("addr", Ty::Addr)];
+            t.push(s);
+        }
+        // try_access: the statements before the loop (initial cur / total) and after it (total == 0 => InvalidGuestAddress(addr))
+        let mut s = gmk("try_access_init", "try_access");
+        s.canon_params = vec!["count", "addr", "f"];
+        s.drop_params = vec!["f"];
+        s.until = Some("while");
+        s.locals = Some(vec!["#0", "#1"]);
+        s.step = Some(("N * N", "rres N"));
+        t.push(s);
+        let mut s = gmk("try_access_post", "try_access");
+        s.canon_params = vec!["count", "addr", "f"];
+        s.drop_params = vec!["f"];
+        s.after_loop = Some(0);
+        s.state = vec![ex("#0", "cur", Ty::Addr), ex("#1", "total", Ty::Int(64))];
+        s.step = Some(("N * N", "rres N"));
+        t.push(s);
+        // Bytes<GuestAddress> for T: the `buf.is_empty()` guards of write / read, the callbacks they hand to
+        // try_access (`&buf[offset..]`: the buffer seen as its length), and the `res != expected => PartialBuffer`
+        // decisions of write_slice / read_slice / read_exact_volatile_from / write_all_volatile_to
+        let bk = |name: &'static str, f: &'static str, loc: Option<Loc>| {
+            let l = Loc::Impl { ty: "T", tr: Some("Bytes"), f };
+            base("Guest", "GuestBytes", gfile, name, f, loc.unwrap_or(l))
+        };
+        for (name, f) in [("gm_write_guard", "write"), ("gm_read_guard", "read")] {
+            let mut s = bk(name, f, None);
+            s.canon_params = vec!["buf", "addr"];
+            s.drop_params = vec!["buf", "addr"];
+            s.extra = vec![ex("buf . is_empty ()", "buf_is_empty", Ty::Bool)];
+            s.until = Some("self . try_access");
+            s.step = Some(("unit", "rres N"));
+            t.push(s);
+        }
+        for (name, f) in [("gm_write_cb", "write"), ("gm_read_cb", "read")] {
+            let mut s = bk(name, f, Some(Loc::Closure { outer: Box::new(Loc::Impl { ty: "T", tr: Some("Bytes"), f }), idx: 0 }));
+            s.canon_params = vec!["offset", "count", "caddr", "region"];
+            s.param_tys = vec![("offset", Ty::Int(64)), ("count", Ty::Int(64)), ("caddr", Ty::Addr), ("region", Ty::Unit)];
+            s.drop_params = vec!["count", "region"];
+            s.extra = vec![ex("buf", "buf_len", Ty::Slice)];
+            s.fns = vec![ofn(f, "region_call", "N -> N -> R", Ty::Unknown)];
+            t.push(s);
+        }
+        for (name, f, call, exp, canon) in [
+            ("gm_write_slice", "write_slice", "self . write (buf , addr)", "buf . len ()", vec!["buf", "addr"]),
+            ("gm_read_slice", "read_slice", "self . read (buf , addr)", "buf . len ()", vec!["buf", "addr"]),
+            ("gm_read_exact_volatile_from", "read_exact_volatile_from", "self . read_volatile_from (addr , src , count)", "count", vec!["addr", "src", "count"]),
+            ("gm_write_all_volatile_to", "write_all_volatile_to", "self . write_volatile_to (addr , dst , count)", "count", vec!["addr", "dst", "count"]),
+        ] {
+            let mut s = bk(name, f, None);
+            s.canon_params = canon.clone();
+            s.drop_params = canon;
+            s.extra = vec![ext(call, "res", "rres N", resn()), ex(exp, "expected", Ty::Int(64))];
+            t.push(s);
+        }
+    }
     // ------------------------------------------------------------------ src/bitmap/backend/slice.rs
     let sfile = "src/bitmap/backend/slice.rs";
     let bo = || ex("self . base_offset", "base_offset", Ty::Int(64));
